@@ -336,6 +336,21 @@ pub fn build_dir(files: &[(String, String)], ptrw: usize) -> Result<BTreeMap<Str
     std::fs::create_dir_all(&in_dir).unwrap();
     std::fs::create_dir_all(&out_dir).unwrap();
     write_tree(&in_dir, files);
+    // the output directory is not empty: every file the build is going to write is already
+    // there, longer than anything pyxis writes for it, full of items that must not survive
+    for (rel, _) in files {
+        if let Some(stem) = rel.strip_suffix(".pyxis") {
+            let p = out_dir.join(format!("{stem}.rs"));
+            if let Some(parent) = p.parent() {
+                let _ = std::fs::create_dir_all(parent);
+            }
+            let mut stale = String::new();
+            for k in 0..4000 {
+                stale.push_str(&format!("pub struct __StaleLeftover{k};\n"));
+            }
+            let _ = std::fs::write(p, stale);
+        }
+    }
     let mut bound = IterationBound::default();
     pyxis::verif::set_sink(Some(Box::new(move |e| bound.observe(&e))));
     let r = guarded(|| pyxis::build(&in_dir, &out_dir, ptrw));
